@@ -87,12 +87,14 @@ def _do_entry(g, entry, args, form):
     return attempt(fn, **_kwargs(args))
 
 
-def _make_motion(entry, prepat, argpat, rel, form):
+def _make_motion(entry, prepat, argpat, rel, form, dp=None):
     def h(px: Finite, py: Finite, pz: Finite, ax: Finite, ay: Finite, az: Finite,
           kx: bool, ky: bool, kz: bool):
         pos = _pick(prepat, (px, py, pz))
         args = _pick(argpat, (ax, ay, az))
-        pre = mkpre(pos=pos, relative=rel, mknown=(kx, ky, kz))
+        pre = mkpre(pos=pos, relative=rel, mknown=(kx, ky, kz), decimal_places=dp)
+        if dp is not None:
+            MODE.decimal_places = dp   # replay tolerance follows the configured precision
         g, rec = prepare(pre)
         m = machine_for(pre, rec)
         e = _do_entry(g, entry, args, form)
@@ -339,6 +341,15 @@ def cells(tier):
                         out.append(Cell(name, _make_motion(entry, prepat, argpat, rel, form),
                                         budget_s=budget, must_reach=("emitted",),
                                         entry=f"GCodeBuilder.{entry.split(':')[0]}"))
+    # high output precision: anything that touches the numbers on one path only (emitted words vs
+    # tracked position) shows up beyond the 5 default decimals
+    for entry in ("move", "rapid", "move_absolute", "probe:towards", "set_axis"):
+        for rel in (False, True):
+            for argpat in ((True, True, True), (True, False, False)) if quick else PATTERNS:
+                name = f"{entry}|{'rel' if rel else 'abs'}|pre=nnn|arg={_pname(argpat)}|kw|dp=12"
+                out.append(Cell(name, _make_motion(entry, (True, True, True), argpat, rel, "kw", dp=12),
+                                budget_s=budget, must_reach=("emitted",),
+                                entry=f"GCodeBuilder.{entry.split(':')[0]}"))
     for target in ("absolute", "relative"):
         for rel in (False, True):
             for prepat in PATTERNS:
